@@ -939,7 +939,7 @@ func init() {
 		Assumptions: []string{"the fee amount and the sender's own order fills are read from the tags (tx.commission_amount, fills in tx.pools / tx.commission_details): they move the same balances as the trade and cannot be separated by observation; the fee amount itself is judged by C27, fills by C14",
 			"a route may return to its first coin through different pools: debit and credit then hit the same balance and only their difference is observable (the requested side is assumed executed as requested)",
 			"limits are learnt from a forked instance; if fork and main instance disagree the trade merely misses the boundary (counted), the oracle never uses the fork"},
-		Quick: 56, Thorough: 1200, MinEval: 2500, MinDistinct: 120,
+		Quick: 56, Thorough: 560, MinEval: 2500, MinDistinct: 120,
 		Run: runC15,
 	})
 }
